@@ -191,6 +191,10 @@ def call_order_port():
     port = InPort(Node(3), -1) if d else OutPort(Node(3), -1)
     k = op.port_kind(port)
     sym.check("call_order_port_is_OrderKind", isinstance(k, tys.OrderKind))
+    h = Hugr()
+    node = h.add_node(op)
+    hp = node.inp(-1) if d else node.out(-1)
+    sym.check("call_order_port_has_no_type", h.port_type(hp) is None and isinstance(h.port_kind(hp), tys.OrderKind))
 
 
 @lemma("C06", bounds="as call_signature")
